@@ -893,6 +893,14 @@ def b_int(ex, v):
     raise OutOfSubset("int() of non-scalar")
 
 
+def b_round(ex, x, n=None):
+    x = tm.lift(num(x))
+    if n is None:
+        return tm.app("round", (x,), tm.I)
+    n = tm.lift(num(n))
+    return tm.app("round", (x, n), tm.R)
+
+
 def b_isinstance(ex, v, cls):
     raise OutOfSubset("isinstance")
 
@@ -940,6 +948,7 @@ BUILTINS = {
     "str": LibFn("str", lambda ex, v="": "<str>"),
     "repr": LibFn("repr", lambda ex, v="": "<str>"),
     "print": LibFn("print", lambda ex, *a, **k: None),
+    "round": LibFn("round", lambda ex, x, n=None: b_round(ex, x, n)),
     "ValueError": "ValueError", "RuntimeError": "RuntimeError", "AttributeError": "AttributeError",
     "NotImplementedError": "NotImplementedError", "TypeError": "TypeError", "KeyError": "KeyError",
     "True": True, "False": False, "None": None,
